@@ -441,6 +441,69 @@ pub fn record(args: &[String]) {
                 let prec = *s.rng.pick(&[0u64, 2, 3, 6, 9]);
                 json!({"op": "rfc_write", "val": val, "prec": prec})
             }
+            "text14" => {
+                // hostile (input, pattern) pairs: grammar-aware and mutational
+                const AL: [&str; 16] = ["0", "7", "9", "-", "+", "a", "Z", "T", ":", ".", " ", "'", "é", "日", "\u{0}", "/"];
+                let mut text = |rng: &mut Rng, n: u64| -> String {
+                    let k = rng.below(n + 1);
+                    (0..k).map(|_| *rng.pick(&AL)).collect::<String>()
+                };
+                match s.rng.below(6) {
+                    0 | 1 => {
+                        // a well-formed text with one mutation, against the pattern that produced it
+                        let val = rand_value(&mut s, ty);
+                        let p = if s.rng.chance(1, 2) { rand_grammar_pattern(&mut s.rng, ty) } else { rand_pattern(&mut s.rng, ty) };
+                        let v = val_from_json(&val);
+                        let base = match fmt_val(&v, &p) {
+                            Value::Array(a) => a.iter().map(|c| c.as_str().unwrap_or("").to_string()).collect::<Vec<_>>(),
+                            _ => Vec::new(),
+                        };
+                        let mut t = base.clone();
+                        if !t.is_empty() {
+                            let i = s.rng.below(t.len() as u64) as usize;
+                            match s.rng.below(4) {
+                                0 => { t.remove(i); }
+                                1 => t[i] = s.rng.pick(&AL).to_string(),
+                                2 => t.insert(i, s.rng.pick(&AL).to_string()),
+                                _ => t.truncate(i),
+                            }
+                        }
+                        json!({"op": "parse_any", "ty": ty, "s": chars(&t.concat()), "p": chars(&p)})
+                    }
+                    2 => {
+                        let p = { let mut q = rand_pattern(&mut s.rng, ty); if s.rng.chance(1, 2) { q.push_str(&text(&mut s.rng, 3)); } q };
+                        let t = text(&mut s.rng, 12);
+                        json!({"op": "parse_any", "ty": ty, "s": chars(&t), "p": chars(&p)})
+                    }
+                    3 => {
+                        let val = rand_value(&mut s, ty);
+                        let mut p = rand_pattern(&mut s.rng, ty);
+                        p.push_str(&text(&mut s.rng, 4));
+                        json!({"op": "format_any", "val": val, "p": chars(&p)})
+                    }
+                    4 => {
+                        let t = text(&mut s.rng, 30);
+                        let op = *s.rng.pick(&["rfc_any", "fromstr_any", "serde_any", "cron_any"]);
+                        json!({"op": op, "ty": ty, "s": chars(&t)})
+                    }
+                    _ => {
+                        // an RFC 3339 text with one mutation
+                        let mut val = rand_value(&mut s, "dt");
+                        val["dn"] = json!(s.rng.range_i64(0, 3_652_058));
+                        let base: Vec<char> = val_from_json(&val).dt().format_rfc3339(prec_of(*s.rng.pick(&[0u64, 3, 9]))).chars().collect();
+                        let mut t: Vec<String> = base.iter().map(|c| c.to_string()).collect();
+                        let i = s.rng.below(t.len() as u64) as usize;
+                        match s.rng.below(4) {
+                            0 => { t.remove(i); }
+                            1 => t[i] = s.rng.pick(&AL).to_string(),
+                            2 => t.insert(i, s.rng.pick(&AL).to_string()),
+                            _ => t.truncate(i),
+                        }
+                        let op = *s.rng.pick(&["rfc_any", "fromstr_any", "serde_any"]);
+                        json!({"op": op, "ty": "dt", "s": chars(&t.concat())})
+                    }
+                }
+            }
             _ => {
                 // text20
                 let mut val = rand_value(&mut s, ty);
